@@ -3,4 +3,4 @@ From Coq Require Import Extraction ExtrOcamlBasic.
 From PV Require Import Num Model_core Entry_core.
 From PV.gen Require Import Gen_core.
 Extraction Language OCaml.
-Extraction "model_core.ml" run_derivs run_kderivs run_spec_derivs run_extract_vars run_apply_gbs run_update run_rhs.
+Extraction "model_core.ml" run_derivs run_kderivs run_spec_derivs run_extract_vars run_apply_gbs run_update run_rhs run_problem.
